@@ -11,38 +11,44 @@ import (
 )
 
 type vProfile struct {
-	name       string
-	clauses    []string // enabled clause prefixes, e.g. "C01."
-	maxScopes  int      // including the root
-	nRegs      int      // registrations before the first Invoke
-	lateRegs   int      // registrations between first and second Invoke
-	maxParams  int
-	maxResults int
-	pForms     int // 1 positional only, 2 +object field, 3 +nested object field
-	rForms     int // 1 positional only, 2 +result object field
-	names      int // 1 = unnamed only, 2 = {"", "a"}, 3 = {"", "a", "b"}
-	groups     bool
-	soft       bool
-	flatten    bool
-	optional   bool
-	export     bool
-	decorators int // how many of the registrations may be decorators
-	faults     int // 1 none, 2 +error, 3 +panic
-	recoverOpt int // 0 off, 1 on, 2 free
-	deferOpt   int // 0 off, 1 on, 2 free
-	nInvokes   int
-	invParams  int
-	variadic   bool
-	distinct   bool // assume all produced single keys pairwise distinct
-	noMissing  bool // assume every Invoke has all required deps
-	callbacks  bool
-	lateScopes bool  // scopes may also be created after registrations
-	quietCalls bool  // call String/Visualize after every registration
-	as         bool  // concrete As results and interface-typed parameters
-	decor2     bool  // decorators may decorate two keys / take an extra parameter
-	objOnly    bool  // all parameters of invoked functions are object fields
-	lateAfter  int   // the late registrations follow Invoke number lateAfter (0-based)
-	regKinds   []int // if set: the kind (vCtor / vDecor) of the i-th registration is fixed
+	name        string
+	clauses     []string // enabled clause prefixes, e.g. "C01."
+	maxScopes   int      // including the root
+	nRegs       int      // registrations before the first Invoke
+	lateRegs    int      // registrations between first and second Invoke
+	maxParams   int
+	maxResults  int
+	pForms      int // 1 positional only, 2 +object field, 3 +nested object field
+	rForms      int // 1 positional only, 2 +result object field
+	names       int // 1 = unnamed only, 2 = {"", "a"}, 3 = {"", "a", "b"}
+	groups      bool
+	soft        bool
+	flatten     bool
+	optional    bool
+	export      bool
+	decorators  int // how many of the registrations may be decorators
+	faults      int // 1 none, 2 +error, 3 +panic
+	recoverOpt  int // 0 off, 1 on, 2 free
+	deferOpt    int // 0 off, 1 on, 2 free
+	nInvokes    int
+	invParams   int
+	variadic    bool
+	distinct    bool // assume all produced single keys pairwise distinct
+	noMissing   bool // assume every Invoke has all required deps
+	callbacks   bool
+	lateScopes  bool  // scopes may also be created after registrations
+	quietCalls  bool  // call String/Visualize after every registration
+	as          bool  // concrete As results and interface-typed parameters
+	decor2      bool  // decorators may decorate two keys / take an extra parameter
+	objOnly     bool  // all parameters of invoked functions are object fields
+	lateAfter   int   // the late registrations follow Invoke number lateAfter (0-based)
+	regKinds    []int // if set: the kind (vCtor / vDecor) of the i-th registration is fixed
+	errPos      bool  // the error result may come first instead of last
+	reenter     bool  // constructors / decorators may re-enter the container while they run
+	decor3      bool  // decorators may also produce a second key they do not consume
+	scopesFirst bool  // scopes are created before the first registration only
+	noPerm      bool  // C16: keep the registration order, vary scope creation time only
+	visErr      bool  // call Visualize(VisualizeError(err)) after every failed Invoke
 }
 
 type vHist struct {
@@ -143,7 +149,13 @@ func (h *vHist) genFunc(kind int, tag string) *vFunc {
 		f.params = append(f.params, k)
 		f.results = append(f.results, r)
 		if h.p.decor2 {
-			switch verifNdInt(tag+".dshape", 4) {
+			nshapes := 4
+			if h.p.decor3 {
+				nshapes = 5
+			}
+			switch verifNdInt(tag+".dshape", nshapes) {
+			case 4: // produces a second key it does not consume
+				f.results = append(f.results, &vResult{t: verifNdType(tag + ".dt3"), form: r.form})
 			case 3: // no input at all: replaces the value
 				f.params = nil
 			case 1: // an extra dependency
@@ -239,7 +251,13 @@ func (h *vHist) genFunc(kind int, tag string) *vFunc {
 			for i := 0; i < 2; i++ {
 				f.fault[i] = verifNdInt(tag+".fault"+vItoa(i), h.p.faults)
 			}
+			if h.p.errPos {
+				f.errFirst = verifNdBool(tag + ".errfirst")
+			}
 		}
+	}
+	if h.p.reenter && kind != vInvoked {
+		f.reenter = verifNdBool(tag + ".reenter")
 	}
 	if h.p.variadic {
 		f.variadic = verifNdBool(tag + ".variadic")
@@ -747,6 +765,9 @@ func (h *vHist) skeleton() []func() []vOp {
 	for i := 0; i < h.p.nRegs; i++ {
 		i := i
 		steps = append(steps, func() []vOp {
+			if h.p.scopesFirst && i > 0 {
+				return h.genReg(nil, "f"+vItoa(i))
+			}
 			return h.genReg(h.genScopes(nil, "s"+vItoa(i)), "f"+vItoa(i))
 		})
 	}
@@ -754,7 +775,7 @@ func (h *vHist) skeleton() []func() []vOp {
 		j := j
 		steps = append(steps, func() []vOp {
 			var ops []vOp
-			if h.p.lateScopes || j == 0 {
+			if (h.p.lateScopes || j == 0) && !h.p.scopesFirst {
 				ops = h.genScopes(ops, "si"+vItoa(j))
 			}
 			return h.genInvoke(ops, "i"+vItoa(j))
@@ -842,6 +863,17 @@ func (h *vHist) apply(w *vWorld, ops []vOp) {
 			w.inv = nil
 			w.record(op.tag + ":" + vClassNames[o.class] + ":ran=" + vItoa(len(r.execs)) + vPanicText(o.panicv))
 			h.afterInvoke(w, r, o, cl, before)
+			if h.p.visErr && o.err != nil {
+				ierr := o.err
+				ov := vGuard(func() error {
+					if CanVisualizeError(ierr) {
+						verifWitness("visualize-error")
+						return Visualize(w.c, vDiscard{}, VisualizeError(ierr))
+					}
+					return nil
+				})
+				h.assert("C14.nopanic", ov.class != vcPanicked)
+			}
 		}
 	}
 }
